@@ -127,14 +127,17 @@ CHECKS["C12"] = {
           "acquire/drop is a set of state flags regenerated from the source) at most one process owns the lock, an owner's file "
           "is never unlinked by another process, a failed acquire never enters and the file is gone when nobody owns it - from "
           "'no lock file' and from 'held by a live scheduled process', while nobody is older than 300 s and either terminated "
-          "processes linger or N <= 2 (mutex_absent_source, mutex_live_holder_source: for the acquire the source has; "
+          "processes linger or N <= 2 (mutex_absent_source, mutex_live_holder_source: for the unguarded acquire the source "
+          "has; for the guarded shape of lock.rs - flock on .renamify around acquire's and release's inspect-then-change "
+          "sequences, modelled as a kernel mutex, plus 'a live holder is never stale' - mutex_guarded_* / "
+          "mutex_source_guarded hold from EVERY initial lock-file state with no hypothesis on clock, N or exits; "
           "side condition 'unparsable files are removed only if the lock file is published complete' proved for the "
           "source). Each hypothesis is shown necessary by a kernel-evaluated witness schedule (orphan/stale/unparsable "
           "check-then-unlink race, 3-process exit race, holder older than 300 s evicted; the repaired defects - empty-window "
           "race of 9509d2d, Drop removing a foreign lock, malformed file blocking, future timestamp - are kept as theorems "
           "about the old variants); the full statement C12_full is refuted. A generated table (call graph of "
           "LockFile::acquire per CLI command, fingerprints of acquire/drop/release_held_locks, timeout, decision chain, "
-          "publish/abandon/drop-check/saturating flags) ties the model to the source: every mutating command locks "
+          "publish/abandon/drop-check/saturating/guard/liveness-first/lossy-read flags) ties the model to the source: every mutating command locks "
           "(all_mutators_lock), dry runs do not. On every run: real LockFile::acquire in-process on an exhaustive grid of "
           "injected lock files vs the model; every mutating CLI command under a held lock, dry runs under a held lock, "
           "release after normal/error/SIGINT/SIGTERM exit and after Ctrl-C at the prompt (pty); model-enumerated "
@@ -151,7 +154,7 @@ CHECKS["C12"] = {
           "HELD_LOCKS.try_lock contention are not modelled; Unicode white space other than ASCII in the lock file is not "
           "modelled; NFS, file systems without hard links, Windows (OpenProcess) and signal delivery inside acquire are "
           "outside the model; the call-graph translator is name-based (over-approximates 'reaches acquire').",
- }
+}
 CHECKS["C19"] = {
   "text": "Finite decision table proved by kernel evaluation: for every command x {--output json, summary} x --quiet x --dry-run x -y x "
           "--preview x scenario x failing site, the stdout emissions, the JSON shape of the emitted document, its membership in the "
